@@ -38,12 +38,22 @@
 (* carries a call is answered 500 (it passed the session lookup, so it still  *)
 (* counts as activity for the idle timer), and no session can be created.     *)
 EXTENDS Integers, Sequences, FiniteSets, TLC
+LOCAL FSE == INSTANCE FiniteSetsExt   \* FSE!FoldSet (CommunityModules), for DieCmps; named: its Functions!Range would clash with Range below
 
-CONSTANTS MaxSess,    \* ids the server may mint in one history
+\* (the `@type` comments are annotations for Apalache, which discharges the inductive invariant IndInv at the end
+\* of this module through HttpSessInd.tla; TLC ignores them)
+CONSTANTS
+          \* @type: Int;
+          MaxSess,    \* ids the server may mint in one history
+          \* @type: Int;
           T,          \* idle timeout in ticks; 0 = SessionTimeout unset
+          \* @type: Bool;
           Stateless,  \* StreamableHTTPOptions.Stateless
+          \* @type: Int;
           MaxSlots,   \* slow POSTs in progress at the same time
+          \* @type: Int;
           MaxParked,  \* DELETEs waiting on one closing session
+          \* @type: Set(Str);
           StoreModes  \* fault modes of the configured EventStore, subset of {"nopurge", "down"}
 
 Users   == {"none", "A", "B"}
@@ -53,16 +63,29 @@ Unknown == -1
 Slots   == 1..MaxSlots
 Bodies  == {"init", "badinit", "call", "slow"}
 
-VARIABLES tab,     \* [Ids -> session record]
+VARIABLES
+          \* @type: Int -> $sess;
+          tab,     \* [Ids -> session record]
+          \* @type: Int;
           nmint,   \* ids minted so far
+          \* @type: Int -> $slot;
           slot,    \* [Slots -> slow POST in progress]
+          \* @type: Bool;
           tiewin,  \* time was advanced exactly to a deadline without letting the timer run first
+          \* @type: Str;
           store,   \* "up", or the fault mode the configured EventStore is in
+          \* @type: Seq($cmp);
           res,     \* completions produced by the last step (output)
+          \* @type: Int;
           ranNow,  \* tool handlers started by the last step (output)
+          \* @type: Bool;
           bad      \* ghost: a timeout closed a session under a POST admitted strictly before the deadline
 vars == <<tab, nmint, slot, tiewin, store, res, ranNow, bad>>
 
+\* @typeAlias: sess = {st: Str, owner: Str, refs: Int, tmr: Str, rem: Int, cb: Bool, run: Int, pdel: Int};
+\* @typeAlias: slot = {id: Int, tie: Bool};
+\* @typeAlias: cmp = {m: Str, body: Str, tgt: Int, user: Str, cls: Str, status: Int, sid: Int, fresh: Bool, ran: Bool};
+HttpSess_aliases == TRUE
 \* pdel: DELETEs waiting for this (closing) session to die
 FreeSess == [st |-> "free", owner |-> "none", refs |-> 0, tmr |-> "nil", rem |-> 0, cb |-> FALSE,
              run |-> 0, pdel |-> 0]
@@ -92,19 +115,25 @@ Cmp(m, body, tgt, user, cls, status, sid, fresh, ran) ==
    sid |-> sid, fresh |-> fresh, ran |-> ran]
 
 \* sessionInfo.startPOST / endPOST (no-ops when the timer is nil: no timeout, or stopped for good)
+\* @type: $sess => $sess;
 StartPOST(s) == IF s.tmr = "nil" THEN s
                 ELSE [s EXCEPT !.tmr = IF s.refs = 0 THEN "off" ELSE @, !.refs = @ + 1]
+\* @type: $sess => $sess;
 EndPOST(s) == IF s.tmr = "nil" THEN s
               ELSE [s EXCEPT !.refs = @ - 1,
                              !.tmr = IF s.refs - 1 = 0 THEN "armed" ELSE @,
                              !.rem = IF s.refs - 1 = 0 THEN T ELSE @]
+\* @type: $sess => $sess;
 Touch(s) == EndPOST(StartPOST(s))
 
 SmallestFree == CHOOSE p \in Slots : slot[p].id = 0 /\ \A q \in Slots : q < p => slot[q].id # 0
 HasFreeSlot == \E p \in Slots : slot[p].id = 0
 
 \* onClose: the DELETEs that were waiting for session i are answered (their user is not tracked: "")
-DieCmps(i) == [j \in 1..tab[i].pdel |-> Cmp("DELETE", "", i, "", "live", 204, 0, FALSE, FALSE)]
+\* (tab[i].pdel copies of the same completion; written as a fold so that Apalache types it as a sequence: for TLC it is the
+\* same value as [j \in 1..tab[i].pdel |-> Cmp(...)])
+DieCmps(i) == FSE!FoldSet(LAMBDA j, acc : Append(acc, Cmp("DELETE", "", i, "", "live", 204, 0, FALSE, FALSE)), <<>>,
+                          {j \in 1..MaxParked : j <= tab[i].pdel})   \* = 1..tab[i].pdel: pdel never exceeds MaxParked (Delete)
 Die(i, first) ==
   /\ tab' = [tab EXCEPT ![i] = DeadSess(tab[i].owner)]
   /\ slot' = [p \in Slots |-> IF slot[p].id = i THEN FreeSlot ELSE slot[p]]
@@ -246,6 +275,7 @@ EndPost(p) ==
 -----------------------------------------------------------------------------
 \* time
 
+\* @type: $sess => $sess;
 TimeoutClose(s) == DeadSess(s.owner)   \* armed => no POST in progress, no tool running (TimerDiscipline)
 
 \* the clock advances by dt and everything settles: due callbacks have run
@@ -317,6 +347,7 @@ CoverSpec == Init /\ [][HarnessNext]_vars
 -----------------------------------------------------------------------------
 \* Properties (C11)
 
+\* @type: Seq($cmp) => Set($cmp);
 Range(q) == {q[j] : j \in DOMAIN q}
 Sessions == {i \in Ids : tab[i].st \in {"live", "closing"}}   \* Server.Sessions() and h.sessions
 
@@ -366,4 +397,56 @@ TimerDiscipline ==
      /\ tab[i].run = Cardinality({p \in Slots : slot[p].id = i})
      /\ tab[i].st = "closing" => tab[i].run > 0
      /\ (tab[i].st = "live" /\ T > 0) => tab[i].tmr # "nil"
+
+-----------------------------------------------------------------------------
+\* Inductive invariant (discharged by Apalache through HttpSessInd.tla: Init => IndInv, and IndInv /\ Next => IndInv',
+\* i.e. unbounded in the length of the history, for the instance fixed by HttpSessInd!CInit).  It is the conjunction
+\* of the seven state invariants that the HttpSess_mc_*.cfg configurations check on bounded histories (literally)
+\* with what makes them inductive: the shape of every table entry and of every slot.
+Statuses == {200, 202, 204, 400, 403, 404, 405, 500}
+\* @type: $cmp => Bool;
+CmpOK(c) ==
+  /\ c.m \in {"POST", "GET", "DELETE"} /\ c.body \in Bodies \cup {"", "notif"}
+  /\ c.tgt \in {NoId, Unknown} \cup Ids /\ c.user \in Users \cup {""}
+  /\ c.cls \in {"none", "unknown", "stale", "foreign", "live"} /\ c.status \in Statuses
+  /\ c.sid \in {0} \cup Ids /\ c.fresh \in BOOLEAN /\ c.ran \in BOOLEAN
+\* @type: $sess => Bool;
+SessOK(s) ==
+  /\ s.st \in {"free", "live", "closing", "dead"} /\ s.owner \in Users
+  /\ s.refs \in 0..MaxSlots /\ s.tmr \in {"nil", "off", "armed"} /\ s.rem >= 0 /\ s.rem <= T
+  /\ s.cb \in BOOLEAN /\ s.run \in 0..MaxSlots /\ s.pdel \in 0..MaxParked
+SlotsOf(i) == {p \in Slots : slot[p].id = i}
+IndTypeOK ==
+  /\ DOMAIN tab = Ids /\ \A i \in Ids : SessOK(tab[i])
+  /\ nmint \in 0..MaxSess
+  /\ DOMAIN slot = Slots /\ \A p \in Slots : slot[p].id \in {-2, Unknown, 0} \cup Ids /\ slot[p].tie \in BOOLEAN
+  /\ tiewin \in BOOLEAN /\ store \in StoreModes \cup {"up"} /\ bad \in BOOLEAN /\ ranNow \in {0, 1}
+  /\ Len(res) <= MaxParked + 2 /\ \A c \in Range(res) : CmpOK(c)
+\* the shape of table entry i
+IndSess(i) ==
+  LET s == tab[i] IN
+  /\ s.st = "free" => s = FreeSess
+  /\ s.st = "dead" => s = DeadSess(s.owner)
+  /\ s.run = Cardinality(SlotsOf(i))
+  /\ s.st \in {"live", "closing"} =>
+        IF T > 0 THEN s.tmr # "nil" /\ s.refs = s.run
+        ELSE s.tmr = "nil" /\ s.refs = 0 /\ ~s.cb
+  /\ s.tmr = "armed" => s.refs = 0 /\ s.st = "live"
+  /\ s.st = "closing" => s.run > 0
+  /\ s.pdel > 0 => s.st = "closing"
+  \* what keeps the ghost `bad` FALSE: while the timeout callback is pending, the POSTs in progress on the session
+  \* were all admitted at (not before) the deadline
+  /\ s.cb => \A p \in SlotsOf(i) : slot[p].tie
+  /\ Stateless => s.st = "free"
+IndSlots ==
+  \A p \in Slots :
+     /\ slot[p].id = 0 => ~slot[p].tie
+     /\ IF Stateless THEN slot[p].id \in {-2, Unknown, 0} /\ ~slot[p].tie
+        ELSE slot[p].id \in {0} \cup Ids
+IndInv ==
+  /\ IndTypeOK
+  /\ \A i \in Ids : IndSess(i)
+  /\ IndSlots
+  /\ MintOnlyOnCreate /\ DeadStaysDead /\ UserBound /\ NoTimeoutDuringPost /\ StatelessNoIds
+  /\ ClosedAndForgotten /\ TimerDiscipline
 =============================================================================
